@@ -295,11 +295,15 @@ struct Viol {
 
 static bool WANT_DESC = false;   // step descriptions are only built for single replays
 static std::string fmt( const char * f, ... ) {
-    char buf[600];
+    char buf[2000];
     va_list ap;
     va_start( ap, f );
-    vsnprintf( buf, sizeof buf, f, ap );
+    int n = vsnprintf( buf, sizeof buf, f, ap );
     va_end( ap );
+    if( n < 0 || n >= ( int )sizeof buf ) {
+        fprintf( stderr, "fmt: buffer too small\n" );
+        abort();
+    }
     return buf;
 }
 
@@ -719,18 +723,21 @@ struct SkipKey {
 };
 
 // shared between a worker and the explorer: progress (crash attribution) lives in Progress
-#define BLOCK 128
 
-// expands items [start,hi) of the frontier.  Output is written in whole blocks of BLOCK items (new
+// expands the frontier blocks w, w+nw, w+2nw, ... (block = 'block' consecutive items), beginning with
+// its own block number 'start'.  Output is written in whole blocks (new
 // states, violations, counters), so that after a crash the explorer can restart the worker at the
 // first item of the unfinished block without losing or double counting anything.
-static void worker( int fd, int kind, int depth, const std::vector<Item> & frontier, int64_t hi, int64_t start,
+static void worker( int fd, int kind, int depth, const std::vector<Item> & frontier, int w_ix, int nw, int64_t block, int64_t start,
                     const std::set<SkipKey> & skip, const HSet & visited ) {
     HSet local;
     std::vector<int> canon;
     std::string out;
-    for( int64_t b0 = start; b0 < hi; b0 += BLOCK ) {
-        int64_t b1 = std::min<int64_t>( b0 + BLOCK, hi );
+    int64_t hi = ( int64_t )frontier.size();
+    for( int64_t lb = start; ; lb++ ) {
+        int64_t b0 = ( w_ix + lb * nw ) * block;
+        if( b0 >= hi ) break;
+        int64_t b1 = std::min<int64_t>( b0 + block, hi );
         int64_t transitions = 0;
         int64_t outcomes[O_N];
         memset( outcomes, 0, sizeof outcomes );
@@ -837,7 +844,7 @@ static void worker( int fd, int kind, int depth, const std::vector<Item> & front
         for( int i = 0; i < O_N; i++ ) put_i64( out, outcomes[i] );
         PG->phase = 0;
         if( !write_all( fd, out ) ) _exit( 3 );
-        PG->done = b1;
+        PG->done = lb + 1;
     }
 }
 
@@ -926,16 +933,18 @@ static int explore_kind( int kind, int maxdepth, int jobs, std::string & json, s
     snprintf( errtmpl, sizeof errtmpl, "%s/instmgr_mc.%d", access( "/dev/shm", W_OK ) == 0 ? "/dev/shm" : "/tmp", ( int )getpid() );
     for( int depth = 0; depth < maxdepth; depth++ ) {
         int64_t nitems = ( int64_t )frontier.size();
-        int nw = ( int )std::min<int64_t>( jobs, nitems );
-        if( nw < 1 ) break;
+        if( nitems < 1 ) break;
+        // small blocks dealt round-robin keep the workers balanced; the merge below is in block order, so the
+        // result does not depend on the block size or on the number of workers
+        int64_t block = std::max<int64_t>( 1, std::min<int64_t>( 256, nitems / ( ( int64_t )jobs * 8 ) ) );
+        int64_t nblocks = ( nitems + block - 1 ) / block;
+        int nw = ( int )std::min<int64_t>( jobs, nblocks );
         struct WState {
-            pid_t pid; int fd; int64_t lo, hi; std::string buf; bool ended; std::set<SkipKey> skip; std::string errfile;
+            pid_t pid; int fd; std::string buf; bool ended; std::set<SkipKey> skip; std::string errfile;
         };
         std::vector<WState> ws( nw );
         fflush( stdout );
         for( int k = 0; k < nw; k++ ) {
-            ws[k].lo = nitems * k / nw;
-            ws[k].hi = nitems * ( k + 1 ) / nw;
             ws[k].ended = false;
             ws[k].pid = 0;
             ws[k].fd = -1;
@@ -944,11 +953,11 @@ static int explore_kind( int kind, int maxdepth, int jobs, std::string & json, s
         int64_t level_trans = 0, level_crashes = 0;
         // (re)start worker k at item 'start'
         struct Launcher {
-            static void go( WState & s, int k, Progress * pg, int kind, int depth, const std::vector<Item> & fr, int64_t start, const HSet & vis ) {
+            static void go( WState & s, int k, int nw, int64_t block, Progress * pg, int kind, int depth, const std::vector<Item> & fr, int64_t start, const HSet & vis ) {
                 int pfd[2];
                 if( pipe( pfd ) ) { perror( "pipe" ); exit( 2 ); }
                 memset( ( void * )&pg[k], 0, sizeof( Progress ) );
-                pg[k].item = start;
+                pg[k].item = -1;
                 pg[k].done = start;
                 pg[k].op = -1;
                 pid_t pid = fork();
@@ -960,7 +969,7 @@ static int explore_kind( int kind, int maxdepth, int jobs, std::string & json, s
                     int nfd = open( "/dev/null", O_WRONLY );
                     if( nfd >= 0 ) { dup2( nfd, 1 ); close( nfd ); }
                     PG = &pg[k];
-                    worker( pfd[1], kind, depth, fr, s.hi, start, s.skip, vis );
+                    worker( pfd[1], kind, depth, fr, k, nw, block, start, s.skip, vis );
                     _exit( 0 );
                 }
                 close( pfd[1] );
@@ -968,7 +977,7 @@ static int explore_kind( int kind, int maxdepth, int jobs, std::string & json, s
                 s.fd = pfd[0];
             }
         };
-        for( int k = 0; k < nw; k++ ) Launcher::go( ws[k], k, pg, kind, depth, frontier, ws[k].lo, visited );
+        for( int k = 0; k < nw; k++ ) Launcher::go( ws[k], k, nw, block, pg, kind, depth, frontier, 0, visited );
         int live = nw;
         while( live > 0 ) {
             std::vector<struct pollfd> pf;
@@ -1032,15 +1041,23 @@ static int explore_kind( int kind, int maxdepth, int jobs, std::string & json, s
                 ws[k].skip.insert( sk );
                 level_trans++;   // the crashed transition was executed
                 // output is written in whole blocks: restart at the first item of the unfinished block
-                Launcher::go( ws[k], k, pg, kind, depth, frontier, pg[k].done, visited );
+                Launcher::go( ws[k], k, nw, block, pg, kind, depth, frontier, pg[k].done, visited );
             }
         }
-        // merge in deterministic order: worker order = frontier order
+        // merge in deterministic order = frontier order: block g was written by worker g % nw as its (g / nw)-th block
         next.clear();
         int64_t level_new = 0;
-        for( int k = 0; k < nw; k++ ) {
+        std::vector<size_t> cursor( nw, 0 );
+        for( int64_t g = 0; g < nblocks && aborted.empty(); g++ ) {
+            int k = ( int )( g % nw );
             Reader r( ws[k].buf );
-            while( r.more() ) {
+            r.p = cursor[k];
+            bool block_end = false;
+            if( !r.more() ) {
+                harness.push_back( fmt( "kind %s depth %d: output of block %lld is missing", KINDS[kind].name, depth + 1, ( long long )g ) );
+                break;
+            }
+            while( r.more() && !block_end ) {
                 int t = r.byte();
                 if( t == R_NEW ) {
                     int64_t it = r.i64();
@@ -1073,12 +1090,16 @@ static int explore_kind( int kind, int maxdepth, int jobs, std::string & json, s
                 } else if( t == R_END ) {
                     level_trans += r.i64();
                     for( int i = 0; i < O_N; i++ ) tot.outcomes[i] += r.i64();
-                    // a restarted worker writes its own END; all are summed
+                    block_end = true;
                 } else {
                     harness.push_back( "corrupt worker stream" );
+                    g = nblocks;
                     break;
                 }
             }
+            cursor[k] = r.p;
+        }
+        for( int k = 0; k < nw; k++ ) {
             unlink( ws[k].errfile.c_str() );
         }
         tot.transitions += level_trans;
@@ -1093,8 +1114,9 @@ static int explore_kind( int kind, int maxdepth, int jobs, std::string & json, s
     }
     munmap( pg, sizeof( Progress ) * 256 );
     levels += "]";
-    json += fmt( "{\"kind\":%s,\"states\":%lld,\"transitions\":%lld,\"levels\":%s,\"outcomes\":{", json_str( KINDS[kind].name ).c_str(),
-                 ( long long )tot.states, ( long long )tot.transitions, levels.c_str() );
+    json += fmt( "{\"kind\":%s,\"states\":%lld,\"transitions\":%lld,\"levels\":", json_str( KINDS[kind].name ).c_str(),
+                 ( long long )tot.states, ( long long )tot.transitions );
+    json += levels + ",\"outcomes\":{";
     for( int i = 0; i < O_N; i++ ) json += fmt( "%s%s:%lld", i ? "," : "", json_str( ONAME[i] ).c_str(), ( long long )tot.outcomes[i] );
     json += "}";
     if( !aborted.empty() ) json += ",\"aborted\":" + json_str( aborted );
